@@ -198,6 +198,9 @@ type Engine struct {
 	// which cond holds should be dropped (recorded as a "cutoff" outcome).
 	// Used to keep bounded explorations of parse loops focused.
 	Prune func(cond *BoolVal) bool
+	// PruneByFacts drops a branch whose condition is refuted, in integer linear
+	// arithmetic, by the conditions already on the path (n < 40 refutes n >= 128).
+	PruneByFacts bool
 	// TrackBounds records a "bounds" event (index or slice bounds against
 	// the length, with the path conditions then in force) for every slice
 	// indexing and slicing operation.
@@ -752,6 +755,15 @@ func (e *Engine) exec(st *State, fr *frame, b, pred *ssa.BasicBlock, idx, depth 
 				st.learn(c)
 				st2.learn(c.Not())
 				var outs []Outcome
+				if e.PruneByFacts {
+					prior := st.conds[:len(st.conds)-1]
+					if e.refutes(prior, c) {
+						return e.exec(st2, fr2, b.Succs[1], b, 0, depth)
+					}
+					if e.refutes(prior, c.Not()) {
+						return e.exec(st, fr, b.Succs[0], b, 0, depth)
+					}
+				}
 				if e.PruneInfeasible {
 					if e.infeasible(c) {
 						return e.exec(st2, fr2, b.Succs[1], b, 0, depth)
@@ -1666,10 +1678,76 @@ func (e *Engine) toBV(f *Form, w int, signed bool) *BV {
 		}
 		return bvAtom(a, w, w, signed)
 	}
+	// a sum of bit-disjoint parts (hi<<32 + lo, x*256 + y) is their bitwise or
+	if bv := e.disjointSum(f, w, signed); bv != nil {
+		return bv
+	}
 	// arbitrary form: name it
 	key := "{" + f.Key() + "}"
 	e.A.intern(&Atom{Key: key, Kind: "app", Fn: "form", Args: []Val{f}})
 	return bvAtom(key, w, w, signed)
+}
+
+// disjointSum recognises c0 + Σ 2^k·atom whose parts occupy disjoint bits.
+func (e *Engine) disjointSum(f *Form, w int, signed bool) *BV {
+	if d, ok := f.D.constVal(); !ok || d.Cmp(big.NewRat(1, 1)) != 0 || len(f.N.t) < 2 || len(f.N.t) > 9 {
+		return nil
+	}
+	var parts []*BV
+	for _, t := range f.N.t {
+		if !t.c.IsInt() || t.c.Sign() <= 0 {
+			return nil
+		}
+		if len(t.m.vars) == 0 {
+			parts = append(parts, bvConst(t.c.Num(), w))
+			continue
+		}
+		if len(t.m.vars) != 1 || t.m.vars[0].p != 1 {
+			return nil
+		}
+		n := t.c.Num()
+		k := n.BitLen() - 1
+		if new(big.Int).Lsh(big.NewInt(1), uint(k)).Cmp(n) != 0 || k >= w {
+			return nil
+		}
+		at := e.A.get(t.m.vars[0].a)
+		if at == nil {
+			return nil
+		}
+		var b *BV
+		switch {
+		case at.Kind == "bv":
+			b = at.BV.resize(w, false)
+		case at.Type != nil:
+			aw, asigned, isInt := intTypeInfo(at.Type, e.WordBits)
+			if !isInt || asigned {
+				return nil
+			}
+			b = bvAtom(t.m.vars[0].a, aw, w, false)
+		default:
+			return nil
+		}
+		// the shift must not push live bits out of the word
+		for i := w - k; i < w; i++ {
+			if i >= 0 && b.Bits[i].Kind != '0' {
+				return nil
+			}
+		}
+		parts = append(parts, b.shl(k))
+	}
+	out := bvConst(new(big.Int), w)
+	for _, p := range parts {
+		for i := range p.Bits {
+			if p.Bits[i].Kind == '0' {
+				continue
+			}
+			if out.Bits[i].Kind != '0' {
+				return nil
+			}
+			out.Bits[i] = p.Bits[i]
+		}
+	}
+	return out
 }
 
 // fromBV converts a bit vector back to a form.
